@@ -447,6 +447,10 @@ class _ExprCanon(ast.NodeTransformer):
             # function form -> method form (the form the package uses)
             new = ast.Call(func=ast.Attribute(value=node.args[0], attr=f.attr, ctx=ast.Load()), args=list(node.args[1:]), keywords=node.keywords)
             return self.visit_Call(ast.copy_location(new, node)) if False else self._method_canon(ast.copy_location(new, node))
+        if fn in ("torch.mul", "torch.multiply", "torch.add", "torch.sub", "torch.subtract", "torch.div", "torch.divide", "torch.true_divide") \
+                and len(node.args) == 2 and not node.keywords and not any(isinstance(a, ast.Starred) for a in node.args):
+            op = {"mul": ast.Mult, "multiply": ast.Mult, "add": ast.Add, "sub": ast.Sub, "subtract": ast.Sub}.get(f.attr, ast.Div)()
+            return ast.copy_location(ast.BinOp(left=node.args[0], op=op, right=node.args[1]), node)
         if fn == "torch.flatten" and len(node.args) == 1 and not node.keywords:
             return ast.copy_location(_mcall(node.args[0], "reshape", ast.UnaryOp(op=ast.USub(), operand=ast.Constant(1))), node)
         if fn in ("torch.autograd.grad", "autograd.grad") and node.args:
